@@ -8,7 +8,7 @@ LEAN_TARGETS = ['LLTD.Props.C06', 'LLTD.Props.C06H']
 VARIANT = 'plain'
 RULE = ('Emit frames from the active mapper with n in {1,2,3,cap-1,cap,random} descriptors that fit (cap = (MTU-34)/14), kinds 0/1, pauses '
         '0/1/255/random, arbitrary addresses, nonzero sequence numbers, MTU in {576,1500,9216}, direct and bridged mappers, preceded by '
-        'random session prefixes and, in a third of the cases, by an Emit executed on a second interface with another address; plus declared counts exceeding what the frame carries (cap+1, 0x7FFF, 0xFFFF) and unknown kinds; '
+        'random session prefixes and, in a third of the cases, by an Emit executed on a second interface with another address; an Emit executed while the thread of another interface handles its own Emit / Discover / Query / Probe during one of the pauses (op `nest`); plus declared counts exceeding what the frame carries (cap+1, 0x7FFF, 0xFFFF) and unknown kinds; '
         'non-trivial = at least two Probe/Train frames and an ACK were sent; distinct = distinct projected transcript')
 ASSUMPTIONS = ['port contract as for C02']
 
@@ -49,6 +49,20 @@ def cases(rng, tier, X):
                 f = f[:2 * mtu]
             ops.append('rx 0 ' + f)
         out.append(('e%d' % k, ops))
+    # two interfaces served by two threads of one daemon: while the thread executing an Emit on interface 0 waits out a pause,
+    # the thread of interface 1 executes its own Emit / answers its own Discover / Query completely (op `nest`)
+    for k in range(40 if tier == 'quick' else 2000):
+        m0, m1 = rng.choice(F.STATIONS), rng.choice(F.STATIONS)
+        ops = [F.iface_line(0, mac=F.OWN, mtu=rng.choice([576, 1500])), F.iface_line(1, mac=F.OWN2, mtu=rng.choice([576, 1500])), F.glob_line(),
+               'rx 0 ' + F.discover(m0, 1, 1), 'rx 1 ' + F.discover(m1, 2, 2)]
+        for _ in range(rng.randint(1, 4)):
+            nd = rng.choice([1, 2, 3, 5])
+            descs = [(rng.choice([0, 1]), rng.choice([0, 1, 255]), F.rand_mac(rng), F.rand_mac(rng)) for _ in range(nd)]
+            inner = rng.choice([F.emit(m1, F.OWN2, rng.randrange(1, 65536), [(rng.choice([0, 1]), rng.choice([0, 3]), F.rand_mac(rng), F.rand_mac(rng)) for _ in range(rng.choice([1, 2]))]),
+                                F.discover(m1, 2, 3), F.query(m1, F.OWN2, 9), F.probe(F.rand_mac(rng), F.OWN2, F.rand_mac(rng), F.OWN2)])
+            ops.append('nest 1 %s zero %d' % (inner, rng.randint(1, nd + 1)))
+            ops.append('rx 0 ' + F.emit(m0, F.OWN, rng.randrange(1, 65536), descs) + ' zero')
+        out.append(('nest%d' % k, ops))
     # small scope, exhaustively: every frame sequence up to length 2 (thorough: 3) over the 23-symbol alphabet of frames.alphabet()
     out += F.small_scope(2 if tier == 'quick' else 3)
     # universal traffic (every frame type / sender / path / service / boundary value, 1..3 interfaces): this check's predicate on it
